@@ -372,15 +372,20 @@ package bkl
 // ------------------------------------------------------------------------------------------------- yaml.go (shape contracts)
 
 //@ func yamlMerge(dst, src, node) (err)
+//@   uses canonNth
 //@   mutates dst
 //@   requires ((_ is VMap) dst)
 //@   ensures ((_ is VMap) dst@post)
+//@   ensures (=> (and (canon dst) (canon src)) (canon dst@post))                                            [C04]
 //@   loop 1
 //@     invariant ((_ is VMap) dst)
+//@     invariant (=> (and (canon dst@pre) (canon src)) (canon dst))
 //@   loop 2
 //@     invariant ((_ is VMap) dst)
+//@     invariant (=> (and (canon dst@pre) (canon src)) (canon dst))
 //@   loop 3
 //@     invariant ((_ is VMap) dst)
+//@     invariant (=> (and (canon dst@pre) (canon src)) (canon dst))
 
 //@ func Document.Process(d, mergeFromDocs) (docs, err)
 //@   uses rappLen
@@ -478,6 +483,9 @@ package bkl
 //@   decreases (- 1002 depth) 4
 //@ func process2DecodeStringMap(obj, mergeFrom, mergeFromDocs, ec, v, depth) (res, err)
 //@   decreases (- 1002 depth) 3
+//@   property C04
+//@   at call process2#1
+//@     assert (=> (decShape (hd (ls decs))) (canon dec))                                                  [C04] [C14]
 //@ func process2List(obj, mergeFrom, mergeFromDocs, ec, depth) (res, err)
 //@   uses appNil, snocApp, escNoKey
 //@   ensures (=> (quiet obj (- depth 1)) (and (not (isErr err)) (= res (dropF obj))))    [C06]
@@ -574,7 +582,24 @@ package bkl
 
 //@ func Parser.MergeDocument(p, patch) (err)
 //@   property C02
-//@   modifies Parser.docs, Document.Data, Document.Parents
+//@   modifies Parser.docs, Document.Data, Document.Parents, Document.ID
+//@   uses rmemApp, rdistinctApp, rappNil, rsnocApp, anyRejectedApp
+//@   requires (rdistinct (Parser.docs p)) (not (rmem patch (Parser.docs p))) (not (= patch 0))
+//@   requires (forall ((r Int)) (=> (rmem r (Parser.docs p)) (and (not (= r 0)) (< r allocTop))))
+//@   ensures (=> (not (and ((_ is VMap) (old (Document.Data patch))) (not (= (select (mc (old (Document.Data patch))) "$match") VAbsent))))          [C02]
+//@              (let ((ts (parentsOf (old (heap Parser.docs)) (old (heap Document.ID)) (old (heap Document.Parents)) p patch))
+//@                    (body (old (Document.Data patch))))
+//@                (and (=> (= ts RNil) (and (not (isErr err)) (= (Parser.docs p) (rapp (old (Parser.docs p)) (RCons patch RNil)))
+//@                                          (= (heap Document.Data) (old (heap Document.Data)))))
+//@                     (=> (not (= ts RNil))
+//@                         (and (= (heap Parser.docs) (old (heap Parser.docs)))
+//@                              (=> (not (isErr err)) (appliedTo (old (heap Document.Data)) (heap Document.Data) ts body))
+//@                              (=> (isErr err) (anyRejected (old (heap Document.Data)) ts body)))))))
+//@   loop 1
+//@     invariant (= (heap Parser.docs) (old (heap Parser.docs)))
+//@     invariant (= matched (not (= done RNil)))
+//@     invariant (appliedTo (old (heap Document.Data)) (heap Document.Data) done (old (Document.Data patch)))
+//@     invariant (not (anyRejected (old (heap Document.Data)) done (old (Document.Data patch))))
 //@ func Parser.mergePatchMatch(p, patch) (matched, err)
 //@   property C02
 //@   modifies Parser.docs, Document.Data, Document.Parents, Document.ID
@@ -583,7 +608,8 @@ package bkl
 //@   requires (forall ((r Int)) (=> (rmem r (Parser.docs p)) (and (not (= r 0)) (< r allocTop))))
 //@   ensures (= matched (and ((_ is VMap) (old (Document.Data patch))) (not (= (select (mc (old (Document.Data patch))) "$match") VAbsent))))          [C02]
 //@   ensures (=> (not matched) (and (not (isErr err)) (= (heap Document.Data) (old (heap Document.Data)))                                          [C02]
-//@                                  (= (heap Parser.docs) (old (heap Parser.docs))) (= (heap Document.Parents) (old (heap Document.Parents)))))
+//@                                  (= (heap Parser.docs) (old (heap Parser.docs))) (= (heap Document.Parents) (old (heap Document.Parents)))
+//@                                  (= (heap Document.ID) (old (heap Document.ID)))))
 //@   ensures (=> (and matched (= (select (mc (old (Document.Data patch))) "$match") VNil))                                                         [C02]
 //@              (let ((body (VMap (store (mc (old (Document.Data patch))) "$match" VAbsent))))
 //@                (and (not (isErr err))
@@ -759,4 +785,43 @@ package bkl
 //@     invariant (= (rapp ret (filterMatch (heap Document.Data) rest pat)) (rapp ret@loop (filterMatch (heap Document.Data) ds pat)))
 
 //@ func yamlTranslateNode(node, depth) (res, err)
+//@   uses canonApp
+//@   ensures (=> (not (isErr err)) (canon res))                                                              [C04]
 //@   decreases (- 1002 depth)
+//@   loop 1
+//@     invariant (and ((_ is VList) ret) (canonL (ls ret)))
+//@   loop 2
+//@     invariant (and ((_ is VMap) ret) (canon ret))
+//@   loop 3
+//@     invariant (and ((_ is VMap) ret) (canon ret))
+
+// ------------------------------------------------------------------------------------------------- normalize.go, process2.go (canonical numbers, C04)
+
+//@ func normalize(obj) (res, err)
+//@   ensures (=> ((_ is VNum) obj) (or (isErr err) ((_ is VInt) res) ((_ is VFlt) res)))                     [C04]
+//@   ensures (=> ((_ is VI64) obj) (and (not (isErr err)) (= res (VInt (lv obj)))))                          [C04]
+//@   ensures (=> (and (not (isErr err)) (decShape obj)) (canon res))                                         [C04]
+//@   ensures (=> (canon obj) (and (not (isErr err)) (= res obj)))                                            [C04]
+//
+//@ func normalizeMap(obj) (res, err)
+//@   requires ((_ is VMap) obj)
+//@   ensures (=> (and (not (isErr err)) (decShape obj)) (canon res))                                         [C04]
+//@   ensures (=> (canon obj) (and (not (isErr err)) (= res obj)))                                            [C04]
+//@   call filterMap#1
+//@     invariant ((_ is VMap) ret)
+//@     invariant (=> (decShape m) (forall ((j String)) (=> (not (= (select (mc ret) j) VAbsent)) (canon (select (mc ret) j)))))
+//@     invariant (=> (canon m) (forall ((j String)) (= (select (mc ret) j) (ite (select visited j) (select (mc m) j) VAbsent))))
+//
+//@ func normalizeList(obj) (res, err)
+//@   uses canonApp, appNil, snocApp
+//@   ensures (=> (and (not (isErr err)) (decShape obj)) (canon res))                                         [C04]
+//@   ensures (=> (canon obj) (and (not (isErr err)) (= res obj)))                                            [C04]
+//@   call filterList#1
+//@     invariant ((_ is VList) ret)
+//@     invariant (=> (decShapeL (ls l)) (and (canonL (ls ret)) (decShapeL rest)))
+//@     invariant (=> (canonL (ls l)) (and (= (app (ls ret) rest) (ls l)) (canonL rest)))
+//
+//@ func normalizeListMap(obj) (res, err)
+//
+//@ func normalizeNumber(obj) (res, err)
+//@   ensures (=> (not (isErr err)) (or ((_ is VInt) res) ((_ is VFlt) res)))                                 [C04]
